@@ -15,9 +15,13 @@ def gen_rx(rng):
     ws = rng.choice([0, 1, 2, 9, 10, 11, 20, 50, 100, 100, 1000, 4096, 65535, 70000, U32, rng.randrange(1, 300)])
     wc = rng.choice([0, 1, ws, ws, 2 * ws, 3 * ws, ws + 1, max(0, ws - 1), 150, 4 * ws + 5, U32, rng.randrange(0, 1200)])
     wc = min(wc, U32)
-    case = [ws, wc]
+    wl = rng.choice([ws, ws, ws, 0, 1, ws // 2, 2 * ws, ws + 1, max(0, ws - 1), 1000, rng.randrange(0, 300)])
+    wl = min(wl, U32)
+    case = [ws, wl, wc]
+    win = [ws, ws, wl, wl]
     nops = rng.choice([1, 2, 3, 5, 8, 12, 20, 30])
-    nstr = rng.choice([1, 1, 2, 4])
+    nstr = rng.choice([1, 2, 4, 4])
+    first = rng.choice([0, 0, 2]) if nstr < 4 else 0
     hi = [0, 0, 0, 0]       # highest offset sent per stream
     rd = [0, 0, 0, 0]       # bytes read (upper estimate)
     fin = [None] * 4
@@ -25,8 +29,8 @@ def gen_rx(rng):
     nframes = 0
     for _ in range(nops):
         r = rng.random()
-        s = rng.randrange(nstr)
-        lim = rd[s] + ws
+        s = (first + rng.randrange(nstr)) % 4
+        lim = rd[s] + win[s]
         if r < 0.45 and nframes < 200:
             nframes += 1
             m = rng.random()
@@ -96,7 +100,7 @@ def gen_rx(rng):
     return case
 
 
-def fixed_rx(tier):
+def _fixed_rx_old(tier):
     out = []
     # window edges for every small window, one stream: frame ending at w-1, w, w+1, with and without fin
     for w in (0, 1, 2, 10, 100):
@@ -139,8 +143,31 @@ def fixed_rx(tier):
     return out
 
 
+def fixed_rx(tier):
+    # the families above were written for one stream window: same window for both directions
+    out = [[c[0], c[0], c[1]] + c[2:] for c in _fixed_rx_old(tier)]
+    # different windows for peer-initiated (index 0, 1) and locally initiated (2, 3) streams:
+    # a frame ending at window-1 / window / window+1 of the stream's own direction
+    for ws, wl in ((10, 20), (20, 10), (0, 5), (5, 0), (100, 1000), (1000, 100), (1, 2)):
+        for s, w in ((0, ws), (2, wl), (3, wl), (1, ws)):
+            for d in (-1, 0, 1):
+                e = w + d
+                if e < 0:
+                    continue
+                out.append([ws, wl, 5000, 1, s, 0, e, 0, 3, s, 1 << 20, 5, 6, 0, 1, s, e, e, 0])
+                out.append([ws, wl, 5000, 1, s, e, 0, 1, 5])
+                out.append([ws, wl, 5000, 2, s, e])
+    # out-of-order chunks, then a FIN / RESET_STREAM below data already received
+    for s in (0, 2):
+        for a, b, lo, f in ((10, 20, 5, 8), (10, 20, 5, 19), (10, 20, 5, 20), (10, 20, 5, 5), (3, 4, 1, 2), (50, 60, 10, 30)):
+            out.append([100, 100, 300, 1, s, a, b - a, 0, 1, s, 0, lo, 0, 1, s, lo, f - lo if f >= lo else 0, 1, 3, s, 1000])
+            out.append([100, 100, 300, 1, s, a, b - a, 0, 1, s, 0, lo, 0, 1, s, f, 0, 1, 3, s, 1000])
+            out.append([100, 100, 300, 1, s, a, b - a, 0, 3, s, 5, 1, s, 0, lo, 0, 3, s, 2, 1, s, f, 0, 1, 3, s, 1000])
+    return out
+
+
 def valid_rx(c):
-    if len(c) < 2 or not all(isinstance(v, int) and 0 <= v <= VMAX for v in c):
+    if len(c) < 3 or not all(isinstance(v, int) and 0 <= v <= VMAX for v in c):
         return False
     return sum(1 for v in c if v == 1) <= 250
 
